@@ -1,3 +1,105 @@
-ENGINES['h_motion'] = 'C++ harness: motion validators vs reference model; Dubins / Reeds-Shepp curves vs independent solver (draft)'
-reg('C05', engine='h_motion', rule='draft', floors={'quick': {}, 'thorough': {}})
-reg('C14', engine='h_motion', rule='draft', floors={'quick': {}, 'thorough': {}})
+# fragment loaded by props.py (reg, ENGINES, POST, CRASHKEY, NOT_CLAIMED are injected)
+ENGINES['h_motion'] = ('C++ harness: (C05) the motion validators the library installs by default (Discrete, Dubins, '
+                       'Reeds-Shepp; Dubins3D opt-in) against a reference model built from validSegmentCount + interpolate '
+                       'under recording validity predicates, plus the state-list helpers of SpaceInformation; (C14) Dubins / '
+                       'symmetric Dubins / Reeds-Shepp distance and interpolation against an independent geometric six-word '
+                       'solver whose candidates are certified by integration, and a vehicle-model polyline oracle; '
+                       'ASan+UBSan build')
+
+_PAIRS = ['random', 'identical', 'near', 'ksegments', 'bound-to-bound', 'seam', 'antipodal']
+_SPACES = ['Rn', 'SO2', 'SO3', 'SE2', 'SE3', 'Compound', 'Dubins', 'DubinsSym', 'ReedsShepp']
+
+
+def _c05(k):
+    f = {'c05_calls': 900000 * k, 'c05_counter_checks': 900000 * k, 'c05_preds_invalid_at_j': 200000 * k,
+         'c05_pairs_exhaustive_j': 5000, 'c05_expected_valid': 35000, 'c05_expected_invalid': 250000 * k,
+         'c05_first_invalid_is_p1': 19000, 'c05_first_invalid_is_last_interior': 12000, 'c05_first_invalid_is_end': 15000,
+         'c05_lastvalid_checks': 500000 * k, 'c05_lastvalid_state_checks': 400000 * k, 'c05_untouched_checks': 90000,
+         'c05_alias_rounds': 90000, 'c05_form_agreement_checks': 300000 * k, 'c05_statelist_calls': 350000,
+         'c05_statelist_invalid_lists': 100000, 'c05_motionstates_calls': 10000, 'c05_pairs_nd0': 1000, 'c05_pairs_nd1': 500,
+         'c05_pairs_nd_ge2': 8000, 'c05_pred_halfspace': 30000, 'c05_pred_hash': 30000, 'c05_pred_ball-in': 10000,
+         'c05_pred_ball-out': 9000, 'c05_validator_DiscreteMotionValidator': 6000, 'c05_validator_DubinsMotionValidator': 2000,
+         'c05_validator_ReedsSheppMotionValidator': 1200}
+    for p in _PAIRS:
+        f['c05_pair_' + p] = 1000
+    for s in _SPACES:
+        f['c05_space_' + s] = 400
+    return f
+
+
+reg('C05', engine='h_motion',
+    rule='one case = one space (R^1..R^6, SO(2), SO(3), SE(2), SE(3), random nested weighted compound incl. Discrete and '
+         'zero-weight components, Dubins, symmetric Dubins, Reeds-Shepp; random bounds and turning radius) with resolution '
+         '0.1%..30% and segment-count factor 1..4, one pair of states (random / identical / closer than one segment / k segments '
+         'apart / bound-to-bound / across the +-pi seam / antipodal) and a family of pure validity predicates over it: '
+         '"invalid exactly at subdivision point j" for every j in 1..nd (exhaustive while nd^2 fits the work budget: nd <= ~150 '
+         'quick, ~520 thorough for cheap spaces; otherwise j = 1,2,3, nd/4, nd/2-1..nd/2+1, 3nd/4, nd-2..nd plus random j), all valid, '
+         'random point sets, hash-random sets at 0.3%/4%/30%, chart half-spaces, metric balls; every predicate is run through '
+         'checkMotion(a,b) and checkMotion(a,b,lastValid) (a subset also with lastValid.first = nullptr, aliasing s1, aliasing s2), '
+         'then getMotionStates + both state-list checkMotion forms with "invalid exactly at index i"; non-trivial = nd >= 2; '
+         'distinct = distinct (space, resolution, nd, a, b) hash',
+    floors={'quick': _c05(1), 'thorough': _c05(3)},
+    level_text='for every generated (space, resolution, factor, pair, predicate) both forms of the installed default validator '
+               'returned exactly valid(b) and all valid(interpolate(a,b,j/nd)); on failure the fraction was in [0,1), the state was '
+               'interpolate(a,b,fraction) (also when the storage aliased s1 or s2 or was null) and fraction was the last valid grid '
+               'point; on success storage and fraction were bit-identical to before; exactly the matching counter advanced by one '
+               'per call; the state-list helpers returned all-valid / the least invalid index',
+    technique='runtime monitoring: reference model + recording validity predicates over generated inputs, under ASan+UBSan',
+    assumptions=['the start state is valid under every generated predicate (documented precondition of checkMotion)',
+                 'predicates are pure functions of the state; "the subdivision point p_j" is interpolate(a,b,j/nd) compared with '
+                 'equalStates; a verdict mismatch whose call queried a state that equals no reference point would be inconclusive '
+                 '(c05-offgrid-query; never observed)',
+                 'the returned last-valid state must equalStates the reference or lie within 1e-9*(1+extent) of it (DESIGN 2.4)',
+                 'which states are queried and how often is a statistic (c05_queries*), not a verdict',
+                 'the Dubins3D validators (Owen / Vana / VanaOwen spaces) are exercised only with --dubins3d 1: every path query '
+                 'of those spaces trips UBSan\'s vptr check in DubinsStateSpace::dubins(state1, state2, radius) '
+                 '(DubinsStateSpace.cpp:862) and aborts the shard in the asan variant'])
+
+_MODES = ['far', 'ccc-region', 'same-position', 'collinear', 'quadrant-boundary', 'longpath-boundary', 'straight-ahead',
+          'straight-behind', 'random', 'near-coincident', 'pure-arc']
+
+
+def _c14(k):
+    f = {'c14_pairs': 13000 * k, 'c14_six_word_checks': 38000 * k, 'c14_ref_candidates_certified': 150000 * k,
+         'c14_polylines': 38000 * k, 'c14_polyline_steps': 45000000 * k, 'c14_length_checks': 38000 * k,
+         'c14_end_pose_checks': 75000 * k, 'c14_euclid_checks': 38000 * k, 'c14_symmetry_checks': 25000 * k,
+         'c14_rs_le_dubins_checks': 12000 * k, 'c14_prefix_checks': 50000 * k, 'c14_long_path_classified': 8000 * k,
+         'c14_short_path_exhaustive': 4500 * k, 'c14_symmetric_reversed_curves': 5000 * k, 'c14_rs_curves_with_reversal': 6500 * k,
+         'c14_coincident_pairs': 500 * k, 'c14_pairs_in_snap_band': 500 * k}
+    for m in _MODES:
+        f['c14_mode_' + m] = 1000 * k
+    for w in ['LSL', 'RSR', 'RSL', 'LSR', 'RLR', 'LRL']:
+        f['c14_dubins_word_' + w] = 900 * k
+    for t in range(18):
+        f['c14_rs_type_%d' % t] = 90 * k
+    return f
+
+
+reg('C14', engine='h_motion',
+    rule='one case = one turning radius in [0.1,10] and one pose pair from 11 generators (far apart 4-12 rho, CCC region < 4 rho, '
+         'same position, collinear with headings along/against the line, relative headings on and within 1e-9/1e-6/1e-3 of the '
+         'multiples of pi/2 that bound the 16-class table, separation on and within 1e-9..1e-3 of the isLongPath boundary, straight '
+         'ahead / straight behind at 1e-4..3 rho with identical heading, uniform random, near-coincident 1e-8..1e-4, goals on the '
+         'start\'s own turning circles) at position magnitudes 0..20 (x rho); all eight clauses on Dubins, symmetric Dubins and '
+         'Reeds-Shepp with 400-2000 interpolation samples per curve and 3 prefix points; non-trivial = poses not coincident '
+         '(>= 1e-5 rho or >= 1e-5 rad apart); distinct = distinct (rho, a, b) hash',
+    floors={'quick': _c14(1), 'thorough': _c14(8)},
+    level_text='for every generated pair the library\'s Dubins distance equalled the shortest of the six words found by an '
+               'independent circle-tangent construction (each candidate certified by integrating it to the goal) within '
+               '1e-5*rho*(1+len); every sampled step of every curve was an arc of the configured radius or straight (<= 2 / <= 4 '
+               'switch samples), never faster than the turning rate, forward-only for Dubins; curves ended at the goal, had the '
+               'reported arc length, were never shorter than the straight line; symmetric variants were symmetric; Reeds-Shepp never '
+               'exceeded Dubins; distances to prefix points were t times the total',
+    technique='runtime monitoring: independent solver + vehicle-model polyline oracle over generated pose pairs, under ASan+UBSan',
+    assumptions=['tolerance 1e-5*rho*(1+length/rho) (10 x DUBINS_EPS = RS_EPS, DESIGN 2.4); per-step heading slack 1e-5 rad, per-step '
+                 'position slack 1e-9*(1+|coordinates|+length)',
+                 'poses closer than 1e-5 rho and 1e-5 rad are coincident: only "Dubins distance <= tol or equal to the six-word value" '
+                 'is required of them; prefix points coincident with the start are skipped',
+                 'declared-resolution band: arcs within 1e-6 of a full turn may count as zero and inner tangents between circles '
+                 'overlapping by < 1e-6 may count as touching (the library snaps both); a library value is a violation only if it is '
+                 'above the shortest exactly certified word or below the shortest word admitted at that resolution; inside the band '
+                 'Reeds-Shepp is compared with the certified exact Dubins length',
+                 'prefix optimality is decided for plain Dubins and Reeds-Shepp; the symmetrised Dubins distance is a minimum of two '
+                 'direction-dependent lengths and does not have the property by construction',
+                 'optimality of Reeds-Shepp itself is only bounded from above (by Dubins) and cross-checked through symmetry and '
+                 'prefix consistency; there is no independent 48-word Reeds-Shepp solver'])
